@@ -24,3 +24,10 @@ def gget(ex, name):
 
 def gset(ex, name, v):
     ex.path.write_field(ex.lookup('g'), name, v)
+
+
+def record(ex, name, value):
+    """make the result of an external visible in counter-models (for replay)"""
+    n = sum(1 for k in ex.root.inputs if k.startswith('ext:' + name))
+    ex.root.inputs['ext:%s#%d' % (name, n)] = value
+    return value
